@@ -106,6 +106,28 @@ CRTF_BAD_LINES = [
 MODES = ['center', 'exact', 'subpixels']
 
 
+def bad_line(rng, fmt):
+    """A malformed line: from the fixed catalogue, or a valid line whose k-th
+    shape parameter is corrupted (so that the parser fails part-way through
+    the parameter list, at every possible position)."""
+    fixed = DS9_BAD_LINES if fmt == 'ds9' else CRTF_BAD_LINES
+    good = DS9_LINES if fmt == 'ds9' else CRTF_LINES
+    if rng.chance(0.4):
+        return rng.pick(fixed)
+    for _ in range(8):
+        line = rng.pick(good)
+        o, c = ('(', ')') if fmt == 'ds9' else ('[', ']')
+        i, j = line.find(o), line.rfind(c)
+        if i < 0 or j < i:
+            continue
+        inner = line[i + 1:j]
+        parts = inner.split(',')
+        k = rng.randrange(len(parts))
+        parts[k] = rng.pick(['abc', '3"', '', '1:2:3:4', '4x', 'nan', '-'])
+        return line[:i + 1] + ','.join(parts) + line[j:]
+    return rng.pick(fixed)
+
+
 class InjectedAbort(BaseException):
     """Raised by the line-level amplifier inside library code."""
 
@@ -692,10 +714,18 @@ class Exec:
         fmt = a.rng.pick(['ds9', 'ds9', 'crtf', 'fits'])
         data = a.slot(('table',) if fmt == 'fits' else ('text:' + fmt,))
         f = fmt
+        if fmt != 'fits':
+            # a fresh string object per call (an id()-keyed cache must not
+            # be able to hide behind the pool keeping its texts alive)
+            data = data[:1] + data[1:]
         if a.fault.get('kind') == 'parse_error' and fmt != 'fits':
             lines = data.split('\n')
-            bad = a.rng.pick(DS9_BAD_LINES if fmt == 'ds9' else CRTF_BAD_LINES)
-            lines.insert(a.rng.randint(1, max(1, len(lines) - 1)), bad)
+            bad = bad_line(a.rng, fmt)
+            c = a.rng.randrange(3)
+            if c == 0:
+                lines.append(bad)            # the failing line comes last
+            else:
+                lines.insert(a.rng.randint(1, max(1, len(lines) - 1)), bad)
             data = '\n'.join(lines)
             a.fired = True
         elif a.bad():
